@@ -35,7 +35,7 @@ LEVEL_TEXT = ('Fault enumeration: every fault kind at every (variable, pass) pos
 LEVEL_NOTE = 'Trusted: reference machine in fsicverif/scripted.py and its reading of "replace" (see assumptions). Bounded by sequence length and pass <= 4.'
 TECHNIQUE = 'fault injection through scripted models + reference state machine (runtime monitor)'
 
-A_OUT = ['same', 'big', 'huge', 'nhuge', 'nan', 'pinf', 'ninf', 'warn', 'exc', 'excse', 'zero']
+A_OUT = ['same', 'big', 'huge', 'nhuge', 'uwarn', 'nan', 'pinf', 'ninf', 'warn', 'exc', 'excse', 'zero']
 B_OUT = ['same', 'huge', 'nan', 'zero']
 FAULTS = ['nan', 'pinf', 'ninf', 'warn', 'exc', 'excse']
 ERRORS = ['raise', 'skip', 'ignore', 'replace', 'bogus']
@@ -105,16 +105,16 @@ def run_shard(ctx):
                     if rng.random() < 0.15:
                         case['start'] = {'A': rng.choice([math.nan, math.inf, -math.inf]), 'B': 0.0}
                     if rng.random() < 0.08:
-                        case['before_fault'] = rng.choice(['exc', 'warn', 'excse'])
+                        case['before_fault'] = rng.choice(['exc', 'warn', 'excse', 'uwarn'])
                     elif rng.random() < 0.08:
-                        case['after_fault'] = rng.choice(['exc', 'warn', 'excse'])
+                        case['after_fault'] = rng.choice(['exc', 'warn', 'excse', 'uwarn'])
                     nt = any(o not in ('same', 'big') for p in script for o in p) or any(not math.isfinite(v) for v in case['start'].values()) or 'before_fault' in case or 'after_fault' in case
                     ctx.evaluation(case, nontrivial=nt, sample=case)
                     ctx.count('faults_injected', sum(o in FAULTS for p in script for o in p))
                     run_case(ctx, Model, case)
     # 3. hook faults, full policy cross
     for hook in ('before_fault', 'after_fault'):
-        for kind in ('exc', 'warn', 'excse'):
+        for kind in ('exc', 'warn', 'excse', 'uwarn'):
             for pol in policies(rng, 0, full=True):
                 for script in ([], [['big', 'same']], [['big', 'same'], ['big', 'big']]):
                     idx += 1
